@@ -204,7 +204,7 @@ func (e *codecEnv) runCodecCase(c codecCase) {
 		if equal {
 			return true
 		}
-		sig := fmt.Sprintf("codec-%s-mismatch:%s:%s", recv, shortType(c.Type), firstField(diffs))
+		sig := fmt.Sprintf("codec-%s-mismatch:%s", recv, firstField(diffs))
 		if recv != "fresh" && c.Type == "mvcc.v1.Command" && onlyEmptyRangeEndPresence(diffs) {
 			sig = "pooled-command-decode-keeps-empty-range_end"
 		}
@@ -214,7 +214,7 @@ func (e *codecEnv) runCodecCase(c codecCase) {
 			// stale aliasing) is still judged instead of being masked by it
 			dropEmptyRangeEnd(orig.(*pb.Command), got.(*pb.Command))
 			if d2, eq2, _ := compare(orig, got); !eq2 {
-				fail(fmt.Sprintf("codec-%s-mismatch:%s:%s", recv, shortType(c.Type), firstField(d2)), step, recv, orig, got, d2, prev, "")
+				fail(fmt.Sprintf("codec-%s-mismatch:%s", recv, firstField(d2)), step, recv, orig, got, d2, prev, "")
 				return false
 			}
 			return true
@@ -256,7 +256,7 @@ func (e *codecEnv) runCodecCase(c codecCase) {
 		diffs, equal, _ := compareFast(B, std)
 		r.Count("crosscheck_trips", 1)
 		if !equal {
-			fail("codec-crosscheck-vt-marshal-std-unmarshal:"+shortType(c.Type)+":"+firstField(diffs), "vt-marshal→std-unmarshal", "fresh", B, std, diffs, "", "")
+			fail("codec-crosscheck-vt-marshal-std-unmarshal:"+firstField(diffs), "vt-marshal→std-unmarshal", "fresh", B, std, diffs, "", "")
 		}
 	}
 	if encStd, err := proto.Marshal(B); err != nil {
@@ -269,7 +269,7 @@ func (e *codecEnv) runCodecCase(c codecCase) {
 			diffs, equal, _ := compareFast(B, vt)
 			r.Count("crosscheck_trips", 1)
 			if !equal {
-				fail("codec-crosscheck-std-marshal-vt-unmarshal:"+shortType(c.Type)+":"+firstField(diffs), "std-marshal→vt-unmarshal", "fresh", B, vt, diffs, "", "")
+				fail("codec-crosscheck-std-marshal-vt-unmarshal:"+firstField(diffs), "std-marshal→vt-unmarshal", "fresh", B, vt, diffs, "", "")
 			}
 		}
 	}
@@ -322,7 +322,7 @@ func (e *codecEnv) runCodecCase(c codecCase) {
 			// the buffer of the PREVIOUS message is dead by now; a recycled receiver must not still point into it
 			scribble(bufA)
 			if diffs, equal, _ := compareFast(B, o); !equal {
-				fail("codec-recycled-receiver-aliases-previous-buffer:"+shortType(c.Type)+":"+firstField(diffs), "overwrite buffer of previous message A", "recycled", B, o, diffs, prevIsA, "")
+				fail("codec-recycled-receiver-aliases-previous-buffer:"+firstField(diffs), "overwrite buffer of previous message A", "recycled", B, o, diffs, prevIsA, "")
 			}
 			if nontrivial {
 				r.Nontrivial("codec-loop|" + string(encB))
@@ -356,7 +356,7 @@ func (e *codecEnv) runCodecCase(c codecCase) {
 			if same {
 				scribble(bufA)
 				if diffs, equal, _ := compareFast(B, o2); !equal {
-					fail("codec-recycled-receiver-aliases-previous-buffer:"+shortType(c.Type)+":"+firstField(diffs), "overwrite buffer of previous message A", "recycled", B, o2, diffs, prev2, "")
+					fail("codec-recycled-receiver-aliases-previous-buffer:"+firstField(diffs), "overwrite buffer of previous message A", "recycled", B, o2, diffs, prev2, "")
 				}
 				if nontrivial {
 					r.Nontrivial("codec-pool|" + string(encB))
@@ -407,15 +407,17 @@ func shortType(full string) string {
 	return full
 }
 
+// firstField names the field (Message.field) at which the first difference lies, plus the kind of
+// difference: the same for every message type that embeds the failing one.
 func firstField(d []fdiff) string {
 	if len(d) == 0 {
 		return "-"
 	}
-	f := d[0].Field
-	if i := strings.LastIndex(f, "."); i >= 0 {
-		f = f[i+1:]
+	parts := strings.Split(d[0].Field, ".")
+	if len(parts) > 2 {
+		parts = parts[len(parts)-2:]
 	}
-	return f + "/" + d[0].Kind
+	return strings.Join(parts, ".") + "/" + d[0].Kind
 }
 
 // violationOnce emits the first violation of a signature through ev (which prints it and writes
